@@ -4,7 +4,7 @@
 (* JSON together with the whole message assembled by Framing, so that the  *)
 (* conformance driver never needs pybufrkit to build the octets.           *)
 (***************************************************************************)
-EXTENDS FM94
+EXTENDS FM94, Scope
 
 CONSTANTS MasterVersion, LocalVersion, Centre, SubCentre,
           IdentVariant      \* 0: the plain identification; 1: every identification field at the top of its range
@@ -12,13 +12,17 @@ CONSTANTS MasterVersion, LocalVersion, Centre, SubCentre,
 Ident == IF IdentVariant = 1 THEN [IdentMax EXCEPT !.mversion = MasterVersion]
          ELSE [Ident0 EXCEPT !.mversion = MasterVersion, !.lversion = LocalVersion, !.centre = Centre, !.subcentre = SubCentre]
 
+(* Compiler.Scoped of every template, computed once *)
+ASSUME TLCSet(17, [t \in 1..Len(Templates) |-> Scoped(Prog[t])])
+ScopedOf == TLCGet(17)
+
 EmitEntry(e) ==
     [lab |-> e.lab, t |-> e.t, w |-> e.w, sc |-> e.sc, ref |-> e.ref, link |-> e.link, d |-> e.d, p |-> e.p, mean |-> e.mean,
      v |-> [i \in 1..Len(e.v) |-> [miss |-> e.v[i].miss, raw |-> e.v[i].raw, N |-> NOf(e, i)]]]
 
 Behaviour ==
     [tid |-> tid, ids |-> Templates[tid], ed |-> ed, cmp |-> cmp, nsub |-> nsub, seed |-> seed, err |-> err,
-     nbits_used |-> pos, data0 |-> IF Mode = "consume" THEN DataBit0 ELSE 0,
+     nbits_used |-> pos, scoped |-> ScopedOf[tid], data0 |-> IF Mode = "consume" THEN DataBit0 ELSE 0,
      padding_nonzero |-> IF Mode = "consume" /\ err = ""
                          THEN \E i \in (DataBit0 + pos + 1)..(8 * (Hdrs[tid].s4 + Hdrs[tid].l4)) : BitOf(Oct, i) = 1
                          ELSE FALSE,
